@@ -798,11 +798,41 @@ Fixpoint coa_run (fl : flags) (cfg : coacfg) (seen : cache) (ins : list coa_inpu
     let '(o, seen') := coa_step_st fl rej orep cfg now src bus raw seen in o :: coa_run fl cfg seen' r
   end.
 
+(* Authenticate / fail-over with the admissible choice of cstep_g: [rej d] = the implementation ignores the verifying
+   datagram d because its Message-Authenticator is irregular (the choice exists only for such datagrams) *)
+Fixpoint first_delivered_g (fl : flags) (rej : bytes -> bool) (secret : bytes) (st : pending) (dgs : list bytes) : option bytes :=
+  match dgs with
+  | [] => None
+  | d :: r => match cstep_g fl (rej d) secret st (CRecv d) with
+              | (_, Some _) => Some d
+              | (st', None) => first_delivered_g fl rej secret st' r
+              end
+  end.
+Definition try_server_g (fl : flags) (rej : bytes -> bool) (s : server_try) : option bytes :=
+  let '(secret, req, dgs) := s in
+  first_delivered_g fl rej secret (fst (cstep fl secret pending0 (CSend (nth 1 req 0) req))) dgs.
+Fixpoint failover_g (fl : flags) (rej : bytes -> bool) (servers : list server_try) : option bytes :=
+  match servers with
+  | [] => None
+  | s :: r => match try_server_g fl rej s with Some d => Some d | None => failover_g fl rej r end
+  end.
+Definition authenticate_failover_g (fl : flags) (rej : bytes -> bool) (extract : list attr -> list (bytes * bytes))
+           (servers : list server_try) : auth_result :=
+  match failover_g fl rej servers with Some d => auth_outcome extract d | None => AError end.
+Definition accounting_failover_g (fl : flags) (rej : bytes -> bool) (servers : list server_try) : bool :=
+  match failover_g fl rej servers with
+  | Some d => match parse d with Some p => p_code p =? 5 | None => false end
+  | None => false
+  end.
+
 (* Authenticate with the provider's extractAttributes (no custom response mappings) *)
 Definition authenticate_radius (fl : flags) (secret req : bytes) (dgs : list bytes) : auth_result :=
   authenticate fl secret (extract_attributes []) req dgs.
 
 Definition authenticate_failover_radius (fl : flags) (servers : list server_try) : auth_result :=
   authenticate_failover fl (extract_attributes []) servers.
+
+Definition authenticate_failover_g_radius (fl : flags) (rej : bytes -> bool) (servers : list server_try) : auth_result :=
+  authenticate_failover_g fl rej (extract_attributes []) servers.
 
 End Crypto.
